@@ -101,14 +101,14 @@ def check_direct(ctx, q, cf, cb, base, seq, nc):
 
 def cli_case(ctx, rng, k):
     """-q / --nextseq-trim at the command line: records and JSON quality_trimmed."""
-    base = rng.choice([33, 33, 64])
+    base = rng.choice([33, 64])
     recs = []
     for i in range(rng.randint(1, 30)):
         n = rng.randint(0, 40)
         q = [max(0, min(x, 126 - base)) for x in gen_q(rng, n, [10, 20])]
         s = "".join(rng.choice("ACGTGGN") for _ in range(n))
         recs.append((f"r{i}", s, "".join(chr(x + base) for x in q)))
-    mode = rng.choice(["q1", "q2", "nextseq", "paired", "both", "both"])
+    mode = rng.choice(["q1", "q2", "nextseq", "paired", "paired", "both", "both"])
     d = f"{ctx.scratch}/cli{k}"
     import os
     os.makedirs(d, exist_ok=True)
@@ -128,8 +128,8 @@ def cli_case(ctx, rng, k):
         nc = rng.choice([5, 10, 20]); argv += ["--nextseq-trim", str(nc)]
     cf2, cb2 = cf, cb
     if mode == "paired":
-        if rng.random() < 0.5:
-            cf2, cb2 = rng.choice([0, 5, 15]), rng.choice([0, 8, 25])
+        if rng.random() < 0.7:
+            cf2, cb2 = rng.choice([0, 5, 15]), rng.choice([8, 15, 25])
             argv += ["-Q", f"{cf2},{cb2}"]
         argv += ["-o", "out.fq", "-p", "out2.fq", "in.fq", "in.fq"]
     else:
@@ -202,7 +202,7 @@ def run_shard(ctx):
     if asan:
         ctx.san_check(lambda: dict(note="end of shard"))
     if not asan:
-        for k in range(ctx.scale(12, 200)):
+        for k in range(ctx.scale(40, 400)):
             cli_case(ctx, ctx.rng("c13cli", k), k)
     if ctx.tier == "thorough" and not asan:
         idx = 0
